@@ -48,7 +48,11 @@ func genC18(seed uint64, tier string) *Tape {
 		x := rng.IntN(100)
 		switch {
 		case x < 16:
-			t.Steps = append(t.Steps, Step{Op: "batch", Node: rng.IntN(na), K: 1 + rng.IntN(4), X: int64(rng.IntN(5))})
+			k := 1 + rng.IntN(4)
+			if rng.IntN(5) == 0 {
+				k = 5 + rng.IntN(60) // batches as large as a busy sender makes them (kilobytes on the wire)
+			}
+			t.Steps = append(t.Steps, Step{Op: "batch", Node: rng.IntN(na), K: k, X: int64(rng.IntN(5))})
 		case x < 16+wChurn:
 			t.Steps = append(t.Steps, Step{Op: []string{"leave", "join", "update"}[rng.IntN(3)], Node: rng.IntN(na), K: rng.IntN(na)})
 		case x < 16+wChurn+10:
@@ -361,7 +365,7 @@ func execC18(r *Run) {
 			name := g.names[s.Node%len(g.names)]
 			b := &protocol.BatchSnapshots{}
 			for j := 0; j < s.K; j++ {
-				b.Snapshots = append(b.Snapshots, &protocol.SignedSnapshot{Snapshot: mkSnapshot(nb), Signature: []byte(fmt.Sprintf("sig%d", nb))})
+				b.Snapshots = append(b.Snapshots, &protocol.SignedSnapshot{Snapshot: mkSnapshot(nb), Signature: fakeSig(nb)})
 				nb++
 			}
 			payload, _ := b.Encode()
@@ -471,3 +475,11 @@ func execC18(r *Run) {
 }
 
 var _ = rand.IntN
+
+// fakeSig is a signature-sized (64 bytes, as ed25519) stand-in: gossip never
+// verifies signatures, but the size of a batch on the wire matters.
+func fakeSig(n uint64) []byte {
+	a := sha256.Sum256([]byte(fmt.Sprintf("sig-a-%d", n)))
+	b := sha256.Sum256([]byte(fmt.Sprintf("sig-b-%d", n)))
+	return append(a[:], b[:]...)
+}
